@@ -29,6 +29,9 @@ REVIEWED = {
     "skactiveml/pool/_bald.py:add_variables:5",
     "skactiveml/pool/_cost_embedding_al.py:fit_transform:5",
     "skactiveml/pool/multiannotator/_interval_estimation_threshold.py:fit:5",
+    # kind 3, reviewed: a ParzenWindowClassifier that is only asked for predict_freq (kernel frequency estimates, no random draw)
+    "skactiveml/pool/_probabilistic_al.py:query:3",
+    "skactiveml/stream/_stream_probabilistic_al.py:query:3",
 }
 
 
@@ -138,7 +141,7 @@ def scan(root=REPO + "/skactiveml"):
                             sites.append((3, *where, "self.cluster_algo(**dict) without random_state"))
                 elif isinstance(f_, ast.Name) and mod is not None and f_.id[:1].isupper():
                     obj = getattr(mod, f_.id, None)
-                    if inspect.isclass(obj) and obj.__module__.startswith("sklearn"):
+                    if inspect.isclass(obj) and obj.__module__.startswith(("sklearn", "skactiveml")):
                         try:
                             params = inspect.signature(obj.__init__).parameters
                         except (TypeError, ValueError):
